@@ -14,7 +14,7 @@ together with `FormatItem::line_length`, `FormatItem::force_break`, `FormatItem:
 builder that produces the item tree from the Ast are NOT modelled.
 
 Text is abstracted to display widths (what `unicode-width` reports — an input): a `str` item carries
-the width of its first line and its number of lines.
+the widths of its lines.
 -/
 namespace KotoVerif.Layout
 
@@ -44,7 +44,7 @@ mutual
 inductive Item where
   | char (w : Nat)                 -- `Char(c)`, w = c.width().unwrap_or(0)
   | optChar (w : Nat)              -- `OptionalChar(c)`
-  | str (w : Nat) (lines : Nat)    -- `Str(s)`: width of the first line, number of lines
+  | str (w : Nat) (more : List Nat) -- `Str(s)`: width of the first line, widths of the further lines
   | lineBreak
   | brk (b : Brk)
   | error
@@ -127,7 +127,7 @@ branch then really produces one line. -/
 def flatOneLine : Item → Bool
   | .char _ => true
   | .optChar _ => true
-  | .str _ lines => lines == 1
+  | .str _ more => more.isEmpty
   | .lineBreak => false
   | .brk b => !b.forces
   | .error => false
@@ -168,5 +168,201 @@ def nestedFlatItems (lineLen col : Nat) : Items → Bool
   | .nil => true
   | .cons i rest => nestedFlat lineLen col i && nestedFlatItems lineLen col rest
 end
+
+/-! ## The break branch of `render_group` and `FormatItem::render`
+
+Output is abstracted to the display widths of its lines: `Out` is the list of line widths, LAST line
+first (so that appending works on the head). -/
+
+/-- `needs_linebreak(line_is_too_long, force_break, accept_optional_linebreak)` -/
+def Brk.needsLinebreak (b : Brk) (tooLong force accept : Bool) : Bool :=
+  match b with
+  | .none | .spaceOrIndentIfNecessary | .indentIfNecessary | .lineStart => false
+  | .indentedBreak | .returnOrIndent | .startBlock => true
+  | .spaceOrIndent | .spaceOrReturn => tooLong
+  | .maybeReturn | .maybeIndent => force || (accept && tooLong)
+
+/-- `needs_indent(line_is_too_long, force_break, already_indented)` -/
+def Brk.needsIndent (b : Brk) (tooLong force indented : Bool) : Bool :=
+  match b with
+  | .indentedBreak | .lineStart => true
+  | .spaceOrIndent => tooLong
+  | .maybeIndent => tooLong || force
+  | .none | .startBlock | .spaceOrReturn | .maybeReturn => false
+  | .spaceOrIndentIfNecessary | .indentIfNecessary => false
+  | .returnOrIndent => !indented
+
+/-- `needs_return(line_is_too_long, force_break, already_indented)` -/
+def Brk.needsReturn (b : Brk) (tooLong force indented : Bool) : Bool :=
+  match b with
+  | .lineStart | .spaceOrReturn => true
+  | .maybeReturn => tooLong || force
+  | .none | .indentedBreak | .spaceOrIndent | .maybeIndent | .startBlock => false
+  | .spaceOrIndentIfNecessary | .indentIfNecessary => false
+  | .returnOrIndent => indented
+
+/-- `needs_space(line_is_too_long)` -/
+def Brk.needsSpace (b : Brk) (tooLong : Bool) : Bool :=
+  match b with
+  | .spaceOrIndent | .spaceOrIndentIfNecessary | .spaceOrReturn => !tooLong
+  | _ => false
+
+/-- What the break logic puts in front of the next item. -/
+inductive Action where
+  | nothing
+  | space
+  /-- `group_start_indent` WITHOUT a line break in front (relies on one having been emitted) -/
+  | returnOnly
+  | newline          -- line break + `group_start_indent`
+  | newlineIndent    -- line break + `group_start_indent` + one indent
+  deriving Repr, DecidableEq, Inhabited
+
+/-- the `if … needs_linebreak … else if needs_return … else if needs_space` cascade -/
+def Brk.action (b : Brk) (tooLong force indented accept : Bool) : Action :=
+  if b.needsLinebreak tooLong force accept then
+    if b.needsIndent tooLong force indented then .newlineIndent else .newline
+  else if b.needsReturn tooLong force indented then .returnOnly
+  else if b.needsSpace tooLong then .space
+  else .nothing
+
+/-- the break an `…IfNecessary` kind turns into when the next item does not fit -/
+def ifNecessaryBreak (indented : Bool) : Brk := if indented then .maybeReturn else .indentedBreak
+
+abbrev Out := List Nat
+
+def Out.emit (w : Nat) : Out → Out
+  | [] => [w]
+  | c :: rest => (c + w) :: rest
+
+def Out.newline (o : Out) : Out := 0 :: o
+
+/-- append the text `t` (also last-line-first) to `o` -/
+def Out.append (o : Out) (t : Out) : Out :=
+  match t.reverse with
+  | [] => o
+  | first :: more => more.reverse ++ (o.emit first)
+
+/-- width of the first line of a rendered text -/
+def Out.firstW (t : Out) : Nat := t.getLast?.getD 0
+/-- width of its last line -/
+def Out.lastW (t : Out) : Nat := t.head?.getD 0
+def Out.multi (t : Out) : Bool := decide (t.length > 1)
+
+structure Opt where
+  lineLen : Nat
+  indentWidth : Nat
+  deriving Repr, DecidableEq
+
+/-- the mutable locals of the loop in `render_group` -/
+structure St where
+  column : Nat
+  groupColumn : Nat
+  pending : Brk
+  lineWidth : Nat
+  childIndented : Bool
+  firstItem : Bool
+  out : Out
+  deriving Repr
+
+mutual
+/-- `FormatItem::render(output = fresh buffer, indented, render_optional, options, column)`;
+`none` = an `Error` item was met. -/
+def renderItem (o : Opt) : Item → Bool → Bool → Nat → Option Out
+  | .char w, _, _, _ => some [w]
+  | .optChar w, _, ro, _ => some [if ro then w else 0]
+  | .str w more, _, _, _ => some (w :: more).reverse
+  | .lineBreak, _, _, _ => some [0, 0]
+  | .brk b, _, _, _ => some [b.flatWidth]
+  | .error, _, _, _ => none
+  | .group is, indented, _, column =>
+    let tooLong := tooLong o.lineLen column is
+    let force := anyItem forceBreak is
+    if tooLong || force || lastIs isIndentedBlock is then
+      (loopItems o tooLong force indented is
+        { column := column, groupColumn := column, pending := .none, lineWidth := column,
+          childIndented := false, firstItem := true, out := [0] }).map (·.out)
+    else flatItems o is column [0]
+/-- the single-line branch: `for item in items { item.render(output, false, false, options, column)? }` -/
+def flatItems (o : Opt) : Items → Nat → Out → Option Out
+  | .nil, _, out => some out
+  | .cons i rest, column, out =>
+    match renderItem o i false false column with
+    | none => none
+    | some t => flatItems o rest column (out.append t)
+/-- the break branch: `for item in items { match item { … } }` -/
+def loopItems (o : Opt) (tooLong force indented : Bool) : Items → St → Option St
+  | .nil, st => some st
+  | .cons (.brk b) rest, st =>
+    let st' : St :=
+      match b with
+      | .startBlock =>
+        { st with column := st.column + o.indentWidth, groupColumn := st.column + o.indentWidth,
+                  out := st.out.newline, pending := .none }
+      | .indentedBreak => { st with pending := if indented then .maybeIndent else .indentedBreak }
+      | b => { st with pending := b }
+    loopItems o tooLong force indented rest st'
+  | .cons .lineBreak rest, st =>
+    loopItems o tooLong force indented rest { st with out := st.out.newline, pending := .none }
+  | .cons i rest, st =>
+    if isIndentedBlock i then
+      -- relative to the group's start column, not `group_column` (/repo dd98b16)
+      match renderItem o i false false st.column with
+      | none => none
+      | some t => loopItems o tooLong force indented rest { st with out := st.out.append t, pending := .none }
+    else
+      let accept := !(st.firstItem && indented)
+      -- "Adjust the column for the item to be rendered"
+      let pre := st.pending.needsLinebreak tooLong force accept
+      let preIndent := pre && st.pending.needsIndent tooLong force indented
+      let gc1 := if pre then (if preIndent then st.column + o.indentWidth else st.column) else st.groupColumn
+      let ci1 := if preIndent then true else st.childIndented
+      match renderItem o i ci1 (tooLong || ci1) gc1 with
+      | none => none
+      | some t =>
+        let firstW := t.firstW
+        -- "Check for 'indented break if necessary' items"
+        let fitsS := decide (st.lineWidth + firstW + 1 ≤ o.lineLen)
+        let fitsI := decide (st.lineWidth + firstW ≤ o.lineLen)
+        let pending2 : Brk :=
+          match st.pending with
+          | .spaceOrIndentIfNecessary => if fitsS then .none else ifNecessaryBreak indented
+          | .indentIfNecessary => if fitsI then .none else ifNecessaryBreak indented
+          | b => b
+        let spaced := st.pending == .spaceOrIndentIfNecessary && fitsS && decide (firstW > 0)
+        let out2 := if spaced then st.out.emit 1 else st.out
+        let firstW2 := if spaced then firstW + 1 else firstW
+        -- "Emit linebreaks if necessary"
+        let act := pending2.action tooLong force indented accept
+        let out3 : Out :=
+          match act with
+          | .newlineIndent => (out2.newline.emit st.column).emit o.indentWidth
+          | .newline => out2.newline.emit st.column
+          | .returnOnly => out2.emit st.column
+          | .space => out2.emit 1
+          | .nothing => out2
+        let gc : Nat :=
+          match act with
+          | .newlineIndent => st.column + o.indentWidth
+          | .newline | .returnOnly => st.column
+          | _ => gc1
+        let lw : Nat :=
+          match act with
+          | .newlineIndent => st.column + o.indentWidth
+          | .newline | .returnOnly => st.column
+          | _ => st.lineWidth
+        let ci : Bool :=
+          match act with
+          | .newlineIndent => true
+          | .returnOnly => false
+          | _ => ci1
+        let lastW := if t.multi then t.lastW else firstW2
+        loopItems o tooLong force indented rest
+          { column := st.column, groupColumn := gc, pending := .none, lineWidth := lw + lastW,
+            childIndented := ci, firstItem := false, out := out3.append t }
+end
+
+/-- `render_group` for the items of a group, as text shape (first line first); `none` on `Error` -/
+def renderGroupLines (o : Opt) (is : Items) (indented : Bool) (column : Nat) : Option (List Nat) :=
+  (renderItem o (.group is) indented false column).map List.reverse
 
 end KotoVerif.Layout
